@@ -30,6 +30,8 @@ type Case struct {
 	Algo     string   `json:"algo"`
 	Work     []uint32 `json:"work"`
 	Sched    []uint32 `json:"sched"`
+	// Pol: the auxiliary tape of the schedule stream (scheduling policy, priorities)
+	Pol []uint32 `json:"pol,omitempty"`
 	// Seed/Index identify a PRNG-driven case whose tapes could not be recorded
 	// (the process died mid-run); replay then regenerates it from the PRNG.
 	Seed  uint64 `json:"seed,omitempty"`
@@ -179,6 +181,11 @@ func genVariant(work *choice.Source) variant {
 	if work.Chance(1, 3) {
 		v.Workers = 1 + work.Intn(4)
 	}
+	if work.Chance(1, 12) {
+		// far more workers than this machine has cores (GOMAXPROCS may be set to any
+		// value): thresholds such as "more than 64 workers" are not out of reach
+		v.Workers = 17 + work.Intn(96)
+	}
 	v.Sticky = work.Intn(4)
 	v.YieldEvery = uint64(pick(work, 0, 7, 61, 509))
 	v.Knobs = map[string]int{}
@@ -209,7 +216,7 @@ type runner struct {
 // runs it with one worker, FIFO schedule, default knobs.
 func (r *runner) sim(v variant, f func()) *Finding {
 	runtime.GOMAXPROCS(v.Workers)
-	res := simsched.Run(r.t, simsched.Config{Src: r.sched, Sticky: v.Sticky, Knobs: v.Knobs}, f)
+	res := simsched.Run(r.t, simsched.Config{Src: r.sched, Sticky: v.Sticky, Knobs: v.Knobs, Policy: simsched.DrawPolicy(r.sched)}, f)
 	r.st.absorb(res)
 	return outcome(res, "variant "+v.String())
 }
@@ -278,12 +285,19 @@ func bigLattice(work *choice.Source, shape *simsolid.Shape, v *variant, lo, hi i
 	}
 	v.Knobs = map[string]int{"cm.itemStride": 257, "auto.stride": 257}
 	v.YieldEvery = 0
+	if work.Chance(1, 3) {
+		v.Workers = 17 + work.Intn(96) // more workers than lattice layers of a usual volume
+	}
 	return true
 }
 
 // ---------------------------------------------------------------- algorithms
 
 func runMC(r *runner, work *choice.Source, search, forceFlat bool) (fs []Finding) {
+	forceTall := false
+	if forceFlat && work.Chance(1, 2) {
+		forceFlat, forceTall = false, true
+	}
 	shape := simsolid.Gen(work, 3)
 	iters := 0
 	if search {
@@ -294,7 +308,22 @@ func runMC(r *runner, work *choice.Source, search, forceFlat bool) (fs []Finding
 	extra := uint64(pick(work, 0, 2, 5))
 	bigK := 2 + work.Intn(5)
 	salt := work.U64()
-	big := bigLattice(work, shape, &v, 64, 112, forceFlat)
+	big := bigLattice(work, shape, &v, 64, 112, forceFlat || forceTall)
+	if forceTall {
+		// the other extreme: at least 66 lattice layers in z and at least as many
+		// workers (GOMAXPROCS beyond 64), plain pipelined path
+		lo, hi := shape.Bounds()
+		// a column: x and y squeezed to a third of the height, so that the many layers
+		// do not come with millions of cells
+		shape.Flatten(0, (hi[2]-lo[2])*0.33)
+		shape.Flatten(1, (hi[2]-lo[2])*0.33)
+		shape.Delta = (hi[2] - lo[2]) / float64(66+work.Intn(40))
+		v.Workers = 64 + work.Intn(64)
+		if work.Chance(3, 4) {
+			kind = 0
+		}
+		r.st.probe("mc.tall_many_workers")
+	}
 	if forceFlat {
 		// the dedicated plate kind: a wide slab that is only a few lattice layers
 		// thick in z, meshed by the plain (z-slab pipelined) path with many workers -
@@ -767,9 +796,57 @@ func runRaster(r *runner, work *choice.Source) (fs []Finding) {
 	}
 	r.st.Faces = want.Bounds().Dx() * want.Bounds().Dy()
 	if d := pixDiff(want, got); d != "" {
-		fs = append(fs, Finding{"raster|" + name, fmt.Sprintf("%s: %s", r.st.Desc, d)})
+		sig := "raster|" + name
+		if kind >= 2 {
+			// Is the difference the filter's doing, or an isolated glitch of the even-odd
+			// containment test itself (a sample whose ray passes exactly through a mesh
+			// vertex is miscounted: colliders promise correct counts only for rays in
+			// general position)?  Render unfiltered once more with every sample point
+			// nudged by a billionth: if that agrees with the filtered image at every
+			// pixel that differed, no boundary is near those pixels and the unfiltered
+			// image, not the filter, was off.
+			var base model2d.Solid = model2d.NewColliderSolid(coll)
+			if name == "collider-lines" {
+				lw := ras.LineWidth
+				if lw == 0 {
+					lw = model2d.RasterizerDefaultLineWidth
+				}
+				base = model2d.NewColliderSolidHollow(coll, 0.5*lw/ras.Scale)
+			}
+			for _, eps := range []float64{1e-9, -1e-9} {
+				var alt *image.Gray
+				if f := r.ref(func() { alt = ras.RasterizeSolid(nudged{base, eps}) }); f != nil {
+					break
+				}
+				agree := alt.Bounds() == got.Bounds()
+				for y := want.Bounds().Min.Y; agree && y < want.Bounds().Max.Y; y++ {
+					for x := want.Bounds().Min.X; x < want.Bounds().Max.X; x++ {
+						if want.GrayAt(x, y) != got.GrayAt(x, y) && alt.GrayAt(x, y) != got.GrayAt(x, y) {
+							agree = false
+							break
+						}
+					}
+				}
+				if agree {
+					sig += "|containment-glitch"
+					d += " (rendering unfiltered with all samples nudged by 1e-9 gives the filtered values at these pixels: an isolated miscount of the even-odd containment test, not a boundary the filter skipped)"
+					break
+				}
+			}
+		}
+		fs = append(fs, Finding{sig, fmt.Sprintf("%s: %s", r.st.Desc, d)})
 	}
 	return
+}
+
+// nudged shifts every query point of a solid by a tiny amount.
+type nudged struct {
+	model2d.Solid
+	eps float64
+}
+
+func (n nudged) Contains(c model2d.Coord) bool {
+	return n.Solid.Contains(model2d.XY(c.X+n.eps, c.Y+n.eps*0.7))
 }
 
 var Algos = []string{"mc", "mcsearch", "dc", "ms", "raster", "mc", "dc", "dcrepair",
@@ -782,7 +859,7 @@ func RunCase(t *testing.T, c *Case, work, sched *choice.Source, st *Stats) (fs [
 	rand.Seed(20260929)
 	r := &runner{t: t, st: st, sched: sched}
 	defer func() {
-		c.Work, c.Sched = work.Tape(), sched.Tape()
+		c.Work, c.Sched, c.Pol = work.Tape(), sched.Tape(), sched.AuxTape()
 		runtime.GOMAXPROCS(16)
 	}()
 	switch c.Algo {
